@@ -298,6 +298,7 @@ func TestVerif_C13_NewStreamSched(t *testing.T) {
 		c13QuotaScenario("quota/mcs1/pre1/new2/close1", 1, 1, 2, 1, 0, b),
 		c13QuotaScenario("quota/mcs2/pre2/new2/close2", 2, 2, 2, 2, 0, b),
 		c13QuotaScenario("quota/mcs1/pre1/new2/raise2", 1, 1, 2, 0, 2, b),
+		c13QuotaScenario("quota/mcs1/pre1/new2/close1+raise2", 1, 1, 2, 1, 2, b),
 		c14GoAwayScenario("goaway1/pre1/new2", 1, 2, 1, b),
 	}
 	if r.Thorough() {
